@@ -54,7 +54,11 @@ func main() {
 		fmt.Fprintln(os.Stderr, err)
 		os.Exit(2)
 	}
-	defer os.RemoveAll(work)
+	if os.Getenv("LHV_KEEP") == "" {
+		defer os.RemoveAll(work)
+	} else {
+		fmt.Fprintln(os.Stderr, "workdir:", work)
+	}
 	switch cmd {
 	case "check":
 		t := *timeout
